@@ -269,6 +269,11 @@ class Ctx:
             elif k == "atan2":
                 ax.append("(and (<= (- PI) %s) (<= %s PI))" % (u, u))
                 ax.append("(=> (and (= %s 0.0) (= %s 0.0)) (= %s 0.0))" % (args[0], args[1], u))
+                # quadrant facts: atan2(y, x) has the sign of y; on the x axis it is 0 (x > 0) or pi (x < 0)
+                ax.append("(=> (> %s 0.0) (and (> %s 0.0) (< %s PI)))" % (args[0], u, u))
+                ax.append("(=> (< %s 0.0) (and (< %s 0.0) (> %s (- PI))))" % (args[0], u, u))
+                ax.append("(=> (and (= %s 0.0) (> %s 0.0)) (= %s 0.0))" % (args[0], args[1], u))
+                ax.append("(=> (and (= %s 0.0) (< %s 0.0)) (= %s PI))" % (args[0], args[1], u))
             elif k == "pow":
                 e = self.const_value(ids[1])
                 b = args[0]
@@ -582,6 +587,88 @@ def replay(prog, model, ensure_name):
     return False, tr, None
 
 
+
+_witness_cache = {}
+
+
+def witness_replay(ctx, rec, prog, ensure_name, tries=10):
+    """An undischarged VC is never an alarm by itself. But a concrete input that satisfies the path condition and on which the
+    REAL code violates the contract is a counterexample wherever it came from: models of (domain & path condition & assumes)
+    are replayed natively. -> (model, float type, transcript) or None"""
+    key = (rec["prog"], rec["mode"], rec["path"])
+    if key not in _witness_cache:
+        names = [n for n, _, _, _ in rec["vars"]]
+        q = ctx.query(None)
+        models = []
+        import random
+        rnd = random.Random(hash(key) & 0xffff)
+        bounds = {n: (F(lo), F(hi)) for n, _, lo, hi in rec["vars"]}
+        for attempt in range(tries):
+            # diversify: each attempt asks for a model in a different orthant of the domain (relative to the box centre or 0)
+            side = []
+            if attempt > 0:
+                for n in names:
+                    lo, hi = bounds[n]
+                    mid = F(0) if lo < 0 < hi else (lo + hi) / 2
+                    r = rnd.random()
+                    if r < 0.4: side.append("(assert (< v_%s %s))\n" % (re.sub(r"[^A-Za-z0-9_]", "_", n), rat(mid)))
+                    elif r < 0.8: side.append("(assert (> v_%s %s))\n" % (re.sub(r"[^A-Za-z0-9_]", "_", n), rat(mid)))
+            qq = q.replace("(check-sat)\n", "".join(side) + "(check-sat)\n")
+            v, s_, dt, out, qp = solve(qq, timeout=5, want_model=True, tag="witness.%s.%s%d.%d" % (rec["prog"], rec["mode"], rec["path"], attempt))
+            if v != "sat": continue
+            m = parse_model(out, names)
+            if any(x is None for x in m.values()): continue
+            if m not in models: models.append(m)
+        _witness_cache[key] = models
+    for m in _witness_cache[key]:
+        ok, tr, ty = replay(prog, m, ensure_name)
+        if ok: return m, ty, tr
+    return None
+
+
+
+_lattice_cache = {}
+
+
+def lattice_witness(rec, prog, ensure_name, cap=20000):
+    """Last resort for an UNDISCHARGED obligation: the real code is run natively (f64) on the boundary lattice of the program's
+    domain (each variable at its bounds, zero, the centre and the quarter points - the degenerate positions where case analyses
+    switch). A lattice point on which the real code violates the named ensure is a replayed counterexample. Finding none leaves
+    the obligation undecided (exit 2). -> (model, 'f64', transcript) or None"""
+    if prog not in _lattice_cache:
+        import itertools, random
+        vals = []
+        for n, _, lo, hi in rec["vars"]:
+            lo, hi = float(lo), float(hi)
+            c = sorted(set([lo, hi, (lo + hi) / 2, lo + (hi - lo) / 4, lo + 3 * (hi - lo) / 4] + ([0.0] if lo < 0 < hi else [])))
+            vals.append((n, c))
+        total = 1
+        for _, c in vals: total *= len(c)
+        if total <= cap:
+            pts = list(itertools.product(*[c for _, c in vals]))
+        else:
+            rnd = random.Random(12345)
+            pts = [tuple(rnd.choice(c) for _, c in vals) for _ in range(cap)]
+        lines = "\n".join(" ".join("%s=%r" % (vals[i][0], p[i]) for i in range(len(vals))) for p in pts) + "\n"
+        rc, out, dt = run([SBIN, "--eval-batch", prog, "f64"], timeout=300, input=lines)
+        bad = {}
+        for l in out.splitlines():
+            if not l.startswith("R "): continue
+            _, idx, names = l.split(" ", 2)
+            if names in ("-", "skip"): continue
+            for nm in names.split(","):
+                bad.setdefault(nm, []).append(pts[int(idx)])
+        _lattice_cache[prog] = ([n for n, _ in vals], bad)
+    names, bad = _lattice_cache[prog]
+    for key in (ensure_name, "PANIC"):
+        if bad.get(key):
+            p = bad[key][0]
+            m = {names[i]: F(p[i]) for i in range(len(names))}
+            ok, tr, ty = replay(prog, m, ensure_name)
+            if ok: return m, ty, tr
+    return None
+
+
 def check_path(prop, prog, meta, rec, timeout):
     """-> list of Ob for one dumped path"""
     obs = []
@@ -702,11 +789,27 @@ def check_path(prop, prog, meta, rec, timeout):
                                                   "replay_cmd": "%s --eval %s f64 %s" % (SBIN, prog, " ".join("%s=%r" % (k, float(x)) for k, x in confirmed[0].items())),
                                                   "transcript": transcripts, "smt_file": qpath})
             else:
-                o.status = UNDECIDED
-                o.detail = "solver model does not reproduce on the real code within the property's floating point tolerance (undecided, not an alarm): " + " ; ".join(transcripts)[:500]
+                w = (witness_replay(ctx, rec, prog, name[7:]) or lattice_witness(rec, prog, name[7:])) if is_ensure else None
+                if w:
+                    o.status = FAILED
+                    o.detail = "not discharged, and a witness of the path condition violates the contract on the real code (%s): %s" % (w[1], {k: float(x) for k, x in w[0].items()})
+                    o.replay = write_replay(prop, o, {"program": prog, "mode": mode, "path": path, "ensure": name, "model_f64": {k: float(x) for k, x in w[0].items()},
+                                                      "replay_cmd": "%s --eval %s f64 %s" % (SBIN, prog, " ".join("%s=%r" % (k, float(x)) for k, x in w[0].items())),
+                                                      "transcript": w[2], "smt_file": qpath, "note": "input = a model of the path condition (the solver's own counterexample did not reproduce)"})
+                else:
+                    o.status = UNDECIDED
+                    o.detail = "solver model does not reproduce on the real code within the property's floating point tolerance (undecided, not an alarm): " + " ; ".join(transcripts)[:500]
         else:
-            o.status = UNDECIDED
-            o.detail = "solver portfolio: %s" % out[:100]
+            w = (witness_replay(ctx, rec, prog, name[7:]) or lattice_witness(rec, prog, name[7:])) if is_ensure else None
+            if w:
+                o.status = FAILED
+                o.detail = "not discharged (%s), and a witness of the path condition violates the contract on the real code (%s): %s" % (out[:40], w[1], {k: float(x) for k, x in w[0].items()})
+                o.replay = write_replay(prop, o, {"program": prog, "mode": mode, "path": path, "ensure": name, "model_f64": {k: float(x) for k, x in w[0].items()},
+                                                  "replay_cmd": "%s --eval %s f64 %s" % (SBIN, prog, " ".join("%s=%r" % (k, float(x)) for k, x in w[0].items())),
+                                                  "transcript": w[2], "smt_file": qpath, "note": "input = a model of the path condition (solver verdict on the VC: %s)" % out[:60]})
+            else:
+                o.status = UNDECIDED
+                o.detail = "solver portfolio: %s" % out[:100]
         obs.append(o)
     # identity obligations: syntactic
     for name, a, b in rec["identical"]:
